@@ -38,7 +38,8 @@ pub mod client {
 
 pub mod server {
     use anyhow::Result;
-    use futures::FutureExt;
+    use anyhow::anyhow;
+    use anyhow::bail;
     use futures::SinkExt;
     use futures::StreamExt;
     use tokio::net::TcpStream;
@@ -46,9 +47,11 @@ pub mod server {
     use tokio_util::codec::FramedWrite;
 
     use crate::protocol::socks5::Socks5AuthMethod;
+    use crate::protocol::socks5::Socks5CommandType;
     use crate::protocol::socks5::codec::Socks5CommandRequestDecoder;
     use crate::protocol::socks5::codec::Socks5InitialRequestDecoder;
     use crate::protocol::socks5::codec::Socks5ServerEncoder;
+    use crate::protocol::socks5::message::Socks5CommandNotSupported;
     use crate::protocol::socks5::message::Socks5CommandRequest;
     use crate::protocol::socks5::message::Socks5CommandResponse;
     use crate::protocol::socks5::message::Socks5InitialResponse;
@@ -56,11 +59,20 @@ pub mod server {
     pub async fn no_auth(stream: &mut TcpStream, response: Socks5CommandResponse) -> Result<Socks5CommandRequest> {
         let (rh, wh) = stream.split();
         let mut reader = FramedRead::new(rh, Socks5InitialRequestDecoder);
-        reader.next().map(Option::unwrap).await?;
+        let initial_request = reader.next().await.ok_or_else(|| anyhow!("connection closed during the socks5 greeting"))??;
         let mut reader = FramedRead::new(reader.into_inner(), Socks5CommandRequestDecoder);
         let mut writer = FramedWrite::new(wh, Socks5ServerEncoder);
+        if !initial_request.auth_methods().contains(&Socks5AuthMethod::NoAuth) {
+            writer.send(Box::new(Socks5InitialResponse::new(Socks5AuthMethod::Unaccepted))).await?;
+            bail!("no acceptable socks5 authentication method");
+        }
         writer.send(Box::new(Socks5InitialResponse::new(Socks5AuthMethod::NoAuth))).await?;
-        let command_request = reader.next().map(Option::unwrap).await?;
+        let command_request = reader.next().await.ok_or_else(|| anyhow!("connection closed during the socks5 request"))??;
+        if command_request.command_type == Socks5CommandType::Bind {
+            // RFC 1928 reply 07: command not supported
+            writer.send(Box::new(Socks5CommandNotSupported)).await?;
+            bail!("unsupported socks5 command: {:?}", command_request.command_type);
+        }
         writer.send(Box::new(response)).await?;
         Ok(command_request)
     }
